@@ -1227,4 +1227,174 @@ theorem ttPairsFrom_pairwise (S F : List Int) (a : Auto) (k : Nat) (l : List Int
         · simp only; omega
       · exact ih _ _
 
+/-! ### `histList` and `histDensity` -/
+
+/-- `np.repeat(keys, values)` -/
+def expand (h : List (Nat × Nat)) : List Nat := (h.map (fun e => List.replicate e.2 e.1)).flatten
+
+theorem histList_eq (h : List (Nat × Nat)) (lag : Nat) :
+    histList h lag = ((expand h).mergeSort (· ≤ ·)).map (· * lag) := rfl
+
+theorem histList_pairwise (h : List (Nat × Nat)) (lag : Nat) : (histList h lag).Pairwise (· ≤ ·) := by
+  rw [histList_eq, List.pairwise_map]
+  have := List.pairwise_mergeSort (le := fun (a b : Nat) => decide (a ≤ b))
+    (by intro a b c; simp only [decide_eq_true_eq]; omega)
+    (by intro a b; simp only [Bool.or_eq_true, decide_eq_true_eq]; omega) (expand h)
+  refine this.imp ?_
+  intro a b hab
+  simp only [decide_eq_true_eq] at hab
+  exact Nat.mul_le_mul_right lag hab
+
+theorem histList_perm (h : List (Nat × Nat)) (lag : Nat) :
+    (histList h lag).Perm ((expand h).map (· * lag)) := by
+  rw [histList_eq]
+  exact (List.mergeSort_perm _ _).map _
+
+theorem count_expand (h : List (Nat × Nat)) (k : Nat) : (expand h).count k = cnt h k := by
+  induction h with
+  | nil => rfl
+  | cons e h ih =>
+    rw [cnt_cons, ← ih]
+    simp only [expand, List.map_cons, List.flatten_cons, List.count_append, List.count_replicate]
+    by_cases he : e.1 = k
+    · simp [he]
+    · simp [he]
+
+/-- the largest key (`max(hist.keys())`, 0 for the empty histogram) -/
+def maxKey (h : List (Nat × Nat)) : Nat := (h.map (·.1)).foldl max 0
+
+theorem foldl_max_ge (l : List Nat) (a : Nat) : a ≤ l.foldl max a ∧ ∀ x ∈ l, x ≤ l.foldl max a := by
+  induction l generalizing a with
+  | nil => simp
+  | cons y l ih =>
+    rw [List.foldl_cons]
+    obtain ⟨h1, h2⟩ := ih (max a y)
+    refine ⟨by omega, ?_⟩
+    intro x hx
+    rcases List.mem_cons.mp hx with rfl | hx
+    · omega
+    · exact h2 x hx
+
+theorem le_maxKey (h : List (Nat × Nat)) (e : Nat × Nat) (he : e ∈ h) : e.1 ≤ maxKey h :=
+  (foldl_max_ge _ 0).2 e.1 (List.mem_map.mpr ⟨e, he, rfl⟩)
+
+/-- bin counts `pts` of `histDensity` -/
+def pts (h : List (Nat × Nat)) : List Nat := (List.range (maxKey h + 1)).map (cnt h)
+
+theorem sum_range_indicator (n k c : Nat) :
+    ((List.range n).map (fun m => if k = m then c else 0)).sum = if k < n then c else 0 := by
+  induction n with
+  | zero => simp
+  | succ n ih =>
+    rw [List.range_succ, List.map_append, List.sum_append, ih]
+    simp only [List.map_cons, List.map_nil, List.sum_cons, List.sum_nil, Nat.add_zero]
+    by_cases h1 : k < n
+    · simp [h1, show k < n + 1 by omega, show k ≠ n by omega]
+    · by_cases h2 : k = n
+      · simp [h2]
+      · simp [h1, h2, show ¬ k < n + 1 by omega]
+
+theorem sum_map_add (l : List Nat) (f g : Nat → Nat) :
+    (l.map (fun m => f m + g m)).sum = (l.map f).sum + (l.map g).sum := by
+  induction l with
+  | nil => rfl
+  | cons x l ih => simp only [List.map_cons, List.sum_cons, ih]; omega
+
+theorem sum_cnt_range (h : List (Nat × Nat)) (n : Nat) (hn : ∀ e ∈ h, e.1 < n) :
+    ((List.range n).map (cnt h)).sum = (h.map (·.2)).sum := by
+  induction h with
+  | nil =>
+    have : (List.range n).map (cnt []) = (List.range n).map (fun _ => 0) := rfl
+    rw [this]; simp
+  | cons e h ih =>
+    have : (List.range n).map (cnt (e :: h)) =
+        (List.range n).map (fun m => (if e.1 = m then e.2 else 0) + cnt h m) := by
+      apply List.map_congr_left; intro m _; exact cnt_cons e h m
+    rw [this, sum_map_add, sum_range_indicator, if_pos (hn e List.mem_cons_self),
+      ih (fun e' he' => hn e' (List.mem_cons_of_mem _ he'))]
+    simp
+
+/-- the bins cover every key, so the bin counts add up to the total count -/
+theorem sum_pts (h : List (Nat × Nat)) : (pts h).sum = (h.map (·.2)).sum :=
+  sum_cnt_range h _ (fun e he => Nat.lt_succ_of_le (le_maxKey h e he))
+
+theorem histDensity_eq (h : List (Nat × Nat)) (lag : Nat) :
+    histDensity h lag =
+      ((pts h).map (fun (c : Nat) => (c : Rat) / ((((pts h).sum : Nat) : Rat) * (lag : Rat))),
+       (List.range (maxKey h + 2)).map (· * lag)) := rfl
+
+theorem sum_map_cast_div (l : List Nat) (D : Rat) :
+    (l.map (fun (c : Nat) => (c : Rat) / D)).sum = ((l.sum : Nat) : Rat) / D := by
+  induction l with
+  | nil => simp
+  | cons x l ih =>
+    rw [List.map_cons, List.sum_cons, ih, List.sum_cons, Nat.cast_add, add_div]
+
+theorem sum_map_mul_right_rat (l : List Rat) (c : Rat) : (l.map (· * c)).sum = l.sum * c := by
+  induction l with
+  | nil => simp
+  | cons x l ih => rw [List.map_cons, List.sum_cons, ih, List.sum_cons, add_mul]
+
+theorem density_mul_lag (c tot lag : Nat) (hlag : 0 < lag) :
+    (c : Rat) / ((tot : Rat) * (lag : Rat)) * (lag : Rat) = (c : Rat) / (tot : Rat) := by
+  have hl : (lag : Rat) ≠ 0 := by exact_mod_cast (Nat.pos_iff_ne_zero.mp hlag)
+  by_cases ht : (tot : Rat) = 0
+  · rw [ht]; simp
+  · field_simp
+
+theorem density_total (tot lag : Nat) (htot : 0 < tot) (hlag : 0 < lag) :
+    (tot : Rat) / ((tot : Rat) * (lag : Rat)) * (lag : Rat) = 1 := by
+  have hl : (lag : Rat) ≠ 0 := by exact_mod_cast (Nat.pos_iff_ne_zero.mp hlag)
+  have ht : (tot : Rat) ≠ 0 := by exact_mod_cast (Nat.pos_iff_ne_zero.mp htot)
+  field_simp
+
+/-! ### further facts on the event automaton -/
+
+theorem eventsFrom_noF (S F : List Int) (a : Auto) (k : Nat) (u : List Int)
+    (hu : ∀ x ∈ u, F.contains x = false) : eventsFrom S F a k u = [] := by
+  induction u generalizing a k with
+  | nil => rfl
+  | cons x u ih =>
+    have hx := hu x List.mem_cons_self
+    have hu' : ∀ y ∈ u, F.contains y = false := fun y hy => hu y (List.mem_cons_of_mem _ hy)
+    by_cases hc : (!a.open_ && S.contains x) = true
+    · simp only [eventsFrom, autoStep, hc, if_true]
+      exact ih _ _ hu'
+    · simp only [eventsFrom, autoStep, hc, hx, Bool.and_false, Bool.false_eq_true, if_false]
+      exact ih _ _ hu'
+
+theorem eventsFrom_append_noF (S F : List Int) (a : Auto) (k : Nat) (l u : List Int)
+    (hu : ∀ x ∈ u, F.contains x = false) : eventsFrom S F a k (l ++ u) = eventsFrom S F a k l := by
+  induction l generalizing a k with
+  | nil => rw [List.nil_append, eventsFrom_noF S F a k u hu]; rfl
+  | cons x l ih =>
+    simp only [List.cons_append, eventsFrom]
+    split <;> simp only [ih]
+
+theorem seg_head? (t : List Int) (i n : Nat) (hi : i < t.length) :
+    ((t.drop i).take (n + 1)).head? = some (t.getD i 0) := by
+  rw [List.head?_take, if_neg (by omega), List.head?_drop, List.getElem?_eq_getElem hi]
+  simp [List.getD_eq_getElem?_getD, List.getElem?_eq_getElem hi]
+
+theorem mem_specEvents_firstIdx (S F t : List Int) (i j : Nat) (h : (i, j) ∈ specEvents S F t) :
+    ∃ lo, firstIdx (fun x => S.contains x) t lo = some i ∧
+      firstIdx (fun x => F.contains x) t (i + 1) = some j := by
+  obtain ⟨pre, post, hsplit⟩ := List.append_of_mem h
+  exact ⟨_, specEventsFrom_split S F t _ 0 pre post i j hsplit⟩
+
+theorem count_map_mul (l : List Nat) (lag k : Nat) (hlag : 0 < lag) :
+    (l.map (· * lag)).count (k * lag) = l.count k := by
+  induction l with
+  | nil => rfl
+  | cons x l ih =>
+    rw [List.map_cons, List.count_cons, List.count_cons, ih]
+    by_cases hx : x = k
+    · simp [hx]
+    · have : x * lag ≠ k * lag := fun h => hx (Nat.eq_of_mul_eq_mul_right hlag h)
+      simp [hx, this]
+
+theorem histList_count (h : List (Nat × Nat)) (lag k : Nat) (hlag : 0 < lag) :
+    (histList h lag).count (k * lag) = cnt h k := by
+  rw [(histList_perm h lag).count_eq, count_map_mul _ _ _ hlag, count_expand]
+
 end MsmVerif.Events
